@@ -93,7 +93,7 @@ def report(c, prop, viols):
 
 def run(prop, tier, seed):
     t = TIERS[tier]
-    c = common.Check(prop, tier, seed, "exploration")
+    c = common.Check(prop, tier, seed, "model_checking")
     r, spath, nshapes = shapes(c, t["full"])
     if prop == "C05":
         out = json.loads(common.run_bin("wire", ["shapes", spath, seed, t["per"]], timeout=7200))
@@ -102,6 +102,8 @@ def run(prop, tier, seed):
         report(c, "C05", out["violations"] + uo["violations"])
         c.coverage = {
             "evaluations": out["evaluations"] + uo["evaluations"], "distinct_nontrivial": nshapes + ntempl,
+            "states": r.distinct + ru.distinct, "transitions": r.generated + ru.generated,
+            "traces_validated_against_impl": out["evaluations"] + uo["evaluations"],
             "user_operations": {"templates": ntempl, "operations": nops, "instances": uo["evaluations"], "samples": uo["samples"],
                                 "rule": "every template of UserOps.tla (26 reserved user operations + the status report; identifier widths x every value of every packed "
                                         "field x length classes, enumerated by TLC, laws OctetsOk / NibRoundTrip checked) instantiated with seeded octets w: decode(w) "
@@ -121,6 +123,8 @@ def run(prop, tier, seed):
         report(c, "C06", out["violations"] + ar["violations"] + uo["violations"])
         c.coverage = {
             "evaluations": out["truncations"] + out["mutations"] + ar["evaluations"] + uo["truncations"] + uo["mutations"],
+            "states": r.distinct + ru.distinct, "transitions": r.generated + ru.generated,
+            "traces_validated_against_impl": out["truncations"] + out["mutations"] + ar["evaluations"] + uo["truncations"] + uo["mutations"],
             "distinct_nontrivial": nshapes + nh + ni + ntempl,
             "user_operations": {"templates": ntempl, "truncations": uo["truncations"], "mutations": uo["mutations"],
                                 "rule": "every truncation of an instance of every UserOps.tla template is rejected, no single-octet mutation makes UserOperation::decode / Report::decode panic"},
@@ -156,6 +160,8 @@ def run(prop, tier, seed):
         report(c, "C15", [dict(v, property="C15") for v in out["violations"]])
         c.coverage = {
             "evaluations": out["patterns"], "distinct_nontrivial": out["pdus"],
+            "states": r.distinct + rc.distinct, "transitions": r.generated + rc.generated,
+            "traces_validated_against_impl": out["patterns"] + out["crc_records"],
             "rule": "for every CRC shape of Wire.tla (one seeded instance each): every single-bit flip after the 4 fixed octets, every pair within a 32-bit window, bursts of 2..16 bits "
                     "(all interiors up to 6 bits, seeded beyond) and seeded 3- and 5-bit patterns into PDU::decode: rejected or decoded to the original; distinct = PDUs attacked; "
                     "the CRC values of %d short encodings validated by TLC against Crc.tla; detection lemma (single, double, burst, triple) checked by TLC for frames of %d+2 octets" % (out["crc_records"], t["crcL"]),
